@@ -143,10 +143,22 @@ class Interp:
         for b, d in self.body.defs.items():
             if d['kind'] == 'param':
                 t = ('param', d['name'])
+                if d['proj']:
+                    # a parameter taken apart in the signature: every binding is a projection of the one (positional) parameter,
+                    # and a struct pattern reads fields exactly as `let S { a, b } = p;` in the body would
+                    t = ('param', '#%d' % d['idx'])
                 for pr in d['proj']:
-                    t = proj_term(t, pr)
+                    if pr[0] == 'vfield' and self.is_struct_name(pr[1]):
+                        t = field_term(t, pr[2])
+                    else:
+                        t = proj_term(t, pr)
                 env[b] = t
         return env
+
+    def is_struct_name(self, short):
+        if not hasattr(self, '_structs'):
+            self._structs = {hirq.short_def(k) for k, it in self.facts.items.items() if it.get('kind') == 'Struct'}
+        return short in self._structs
 
     # ------------------------------------------------------------------ helpers
     def discr_of(self, short):
@@ -703,7 +715,13 @@ class Interp:
         for _round in range(4):
             changed = False
             for s in product(False):
-                for sb in runner(s):
+                # (a field hook may consult `in_fixpoint` to stay out of the way while the carried values are being discovered)
+                self.in_fixpoint = getattr(self, 'in_fixpoint', 0) + 1
+                try:
+                    back = runner(s)
+                finally:
+                    self.in_fixpoint -= 1
+                for sb in back:
                     for b in cand:
                         v = sb.env.get(b)
                         if v is None or b in wide or v in vals[b] or (v[0] == 'carried' and v[1] == b):
